@@ -44,6 +44,8 @@ SCOPES = {
     'cell': ('\\begin{tabular}{ll}', '&x\\\\\\end{tabular}'),
 }
 EDITS = ['none', 'def', 'gdef', 'let', 'cat']
+# an ungrouped declaration (\bfseries) opens a frame of its own that only the end of the enclosing scope closes: edits made after it
+DECL_TRIPLES = [t for t in itertools.product(['none', 'def', 'decldef'], repeat=3) if 'decldef' in t]
 DEFAULT_CAT = {'\\': 0, '{': 1, '}': 2, '$': 3, '&': 4, '\n': 5, '#': 6, '^': 7, '_': 8, '\x00': 9, ' ': 10, '\t': 10, '\r': 10, '\f': 10, '~': 13, '%': 14}
 
 
@@ -55,14 +57,20 @@ class Model:
     """frames of local definitions and catcode overrides; frame 0 is global"""
 
     def __init__(self):
-        self.frames = [{'defs': {'vqa': 'G', 'vqb': 'H', 'vql': ''}, 'cat': {}}]
+        self.frames = [{'defs': {'vqa': 'G', 'vqb': 'H', 'vql': ''}, 'cat': {}, 'scope': True}]
         self.k = 0
 
     def push(self):
-        self.frames.append({'defs': {}, 'cat': {}})
+        self.frames.append({'defs': {}, 'cat': {}, 'scope': True})
 
     def pop(self):
+        # closing a scope also closes the declarations opened inside it
+        while not self.frames[-1].get('scope'):
+            self.frames.pop()
         self.frames.pop()
+
+    def extra(self):
+        return sum(1 for f in self.frames if not f.get('scope', True))
 
     def lookup(self, name):
         for f in reversed(self.frames):
@@ -82,6 +90,10 @@ class Model:
         elif kind == 'let':
             src.append('\\let\\vql\\vqa \\def\\vqa{%s}' % tag)
             self.frames[-1]['defs']['vql'] = self.lookup('vqa')
+            self.frames[-1]['defs']['vqa'] = tag
+        elif kind == 'decldef':
+            src.append('\\bfseries \\def\\vqa{%s}' % tag)
+            self.frames.append({'defs': {}, 'cat': {}, 'scope': False})
             self.frames[-1]['defs']['vqa'] = tag
         elif kind == 'cat':
             which = ['@', '!', '~'][self.k % 3]
@@ -122,8 +134,8 @@ def _expect_uses(m):
     return '[' + ''.join(m.lookup(n) or '' for n in ('vqa', 'vqb', 'vql')) + ']'
 
 
-def h_scopes(e, outer, inner, lo, hi, unclosed=0):
-    triples = list(itertools.product(EDITS, repeat=3))[lo:hi]
+def h_scopes(e, outer, inner, lo, hi, unclosed=0, decl=False):
+    triples = (DECL_TRIPLES if decl else list(itertools.product(EDITS, repeat=3)))[lo:hi]
     ed = triples[e.choice(len(triples), 'edits')]
     doc = TeXDocument()
     q = e.char('q')
@@ -137,7 +149,7 @@ def h_scopes(e, outer, inner, lo, hi, unclosed=0):
     def observe():
         src.append(_uses())
         want_text.append(_expect_uses(m))
-        want_obs.append({'depth': len(m.frames), 'cat': None, 'defs': (m.lookup('vqa') is not None, m.lookup('vqb') is not None, m.lookup('vql') is not None)})
+        want_obs.append({'depth': len(m.frames), 'extra': m.extra(), 'cat': None, 'defs': (m.lookup('vqa') is not None, m.lookup('vqb') is not None, m.lookup('vql') is not None)})
         want_obs[-1]['frames'] = [dict(f['cat']) for f in m.frames]
     observe()
     o_open, o_close = SCOPES[outer]
@@ -195,9 +207,10 @@ def h_scopes(e, outer, inner, lo, hi, unclosed=0):
     npts = len(log)
     e.check(log[-1]['depth'] == d0, 'stack depth after the outer scope closed is %+d relative to before it opened (outer=%s inner=%s unclosed=%d)'
             % (log[-1]['depth'] - d0, outer, inner, unclosed), 'depth')
-    e.check(log[-2]['depth'] == log[1]['depth'], 'stack depth after the inner scope closed is %+d relative to before it opened (outer=%s inner=%s unclosed=%d)'
-            % (log[-2]['depth'] - log[1]['depth'], outer, inner, unclosed), 'depth')
-    e.check(log[1]['depth'] > d0 and log[2]['depth'] > log[1]['depth'], 'scopes do not deepen the stack', 'depth')
+    x = [w['extra'] for w in want_obs]         # frames of declarations in force at each point
+    e.check(log[-2]['depth'] - x[-2] == log[1]['depth'] - x[1], 'stack depth after the inner scope closed is %+d relative to before it opened (outer=%s inner=%s unclosed=%d)'
+            % ((log[-2]['depth'] - x[-2]) - (log[1]['depth'] - x[1]), outer, inner, unclosed), 'depth')
+    e.check(log[1]['depth'] - x[1] > d0 and log[2]['depth'] - x[2] > log[1]['depth'] - x[1], 'scopes do not deepen the stack', 'depth')
     for i, (l, w) in enumerate(zip(log, want_obs)):
         e.check(l['in'][:3] == w['defs'] and l['in'][3] is not True and l['in'][3] in (False, None), 'name membership at point %d: %r, the model says %r' % (i, l['in'], w['defs']), 'membership')
         e.check(l['keys'] == (w['defs'][0], w['defs'][2]), 'keys() at point %d does not list the names visible through the parent frames' % i, 'membership')
@@ -347,6 +360,14 @@ def jobs(tier, seed):
             for lo in los:
                 J.append(dict(harness='h_scopes', params=dict(outer=outer, inner=inner, lo=lo, hi=min(n, lo + chunk)), label='scopes %s>%s [%d:]' % (outer, inner, lo),
                               no_twin=(outer, inner) != ('brace', 'env')))
+    nd = len(DECL_TRIPLES)
+    for outer in kinds:
+        for inner in kinds:
+            if outer == 'math' or inner == 'math' or (outer == 'cell' and inner == 'cell'):
+                continue
+            los = [((seed + kinds.index(outer) + kinds.index(inner)) % 3) * 7] if q else [0, 7, 14]
+            for lo in los:
+                J.append(dict(harness='h_scopes', params=dict(outer=outer, inner=inner, lo=lo, hi=min(nd, lo + 7), decl=True), label='declarations %s>%s [%d:]' % (outer, inner, lo), no_twin=True))
     for u in (1, 2, 3):
         for outer in ('brace', 'env', 'begingroup'):
             for inner in ('env', 'cell'):
